@@ -105,16 +105,16 @@ func (v *vstate) noteLabels() {
 }
 
 type hist struct {
-	c     *drv.Ctx
-	w     *drv.Worker
-	cl    *dvc.Client
-	r     *rand.Rand
-	tag   string
-	root  string
-	vs    []*vstate
-	pool  []am.Point
-	org   am.Point
-	neg   bool // negative positions are in the candidate pool
+	c    *drv.Ctx
+	w    *drv.Worker
+	cl   *dvc.Client
+	r    *rand.Rand
+	tag  string
+	root string
+	vs   []*vstate
+	pool []am.Point
+	org  am.Point
+	neg  bool // the label volume (and most candidate positions) sit at negative coordinates
 	// feature: the one class of operations with a known, reported defect that this history may use, and only in its
 	// last 40% ("risky" phase), so that every history first explores everything else and one history in five ends
 	// with the sweep over all versions:  "" none | "kind" overwrite with another kind | "neg" cleave under an element at negative coordinates |
@@ -122,10 +122,10 @@ type hist struct {
 	feature string
 	risky   bool
 	spans   []am.Span
-	lw    *logWatch
-	trace []string
-	dead  bool // a violation made the model and the server diverge: stop this history
-	incon bool // … or the fixture / a watchdog failed (inconclusive, no verdict)
+	lw      *logWatch
+	trace   []string
+	dead    bool // a violation made the model and the server diverge: stop this history
+	incon   bool // … or the fixture / a watchdog failed (inconclusive, no verdict)
 
 	opClass string // class of the last operation (part of violation keys)
 	opNT    bool   // last operation touched an element with tags or relationships
@@ -1513,9 +1513,9 @@ func (h *hist) compare(v *vstate) error {
 	checks = append(checks, h.blockCheck(v, "all-elements", "all-elements", el.ByBlock()))
 	boxes := [][2]am.Point{
 		{{o[0] - 40, o[1] - 40, o[2] - 40}, {3*BS + 80, 2*BS + 80, 2*BS + 80}}, // the whole label volume and a margin (negative coordinates included)
-		{{o[0] + 20, o[1] + 10, o[2] + 5}, {24, 40, 50}},                         // crosses block borders, cuts blocks
-		{{o[0] + 32, o[1], o[2]}, {32, 32, 32}},                                  // exactly one block
-		{{-3, -3, -3}, {20, 40, 40}},                                             // straddles −1|0 on every axis
+		{{o[0] + 20, o[1] + 10, o[2] + 5}, {24, 40, 50}},                       // crosses block borders, cuts blocks
+		{{o[0] + 32, o[1], o[2]}, {32, 32, 32}},                                // exactly one block
+		{{-3, -3, -3}, {20, 40, 40}},                                           // straddles −1|0 on every axis
 	}
 	for i, b := range boxes {
 		if i == 3 && !h.neg {
